@@ -1232,12 +1232,550 @@ Qed.
 
 End Invariant.
 
-(* ------------------------------------------------------------------ the property theorems *)
-(* calls whose undoability and invariant preservation are proved here; remove_op / replace_op
-   (with their nested blocker decrefs) and a bare decref are not: see notes/C17.md *)
-Definition simple (a : api) : bool :=
-  match a with AAdd _ _ _ | AHardref _ | ABackref _ _ | ABlock _ _ _ => true | _ => false end.
+(* ------------------------------------------------------------------ compound operations *)
+Lemma count_filter_last' {A} (eqb : A -> A -> bool) (Hr : reflects eqb) x y l :
+  count eqb x l = 1 ->
+  count eqb y (filter (fun z => negb (eqb x z)) l ++ [x]) = count eqb y l.
+Proof.
+  intros H1. rewrite (count_app eqb), (count_filter_ne eqb Hr). cbn.
+  destruct (eqb x y) eqn:H.
+  - apply Hr in H. subst. rewrite (eqb_refl' eqb Hr). lia.
+  - rewrite (eqb_sym' eqb Hr), H. lia.
+Qed.
 
+Section Compound.
+Variable E : env.
+
+Lemma count_blockers_of e l :
+  count trip_eqb e l <> 0 -> count N.eqb (fst (snd e)) (blockers_of l) <> 0.
+Proof.
+  intros H. apply (count_In trip_eqb trip_reflects) in H.
+  apply (count_In N.eqb N_reflects). unfold blockers_of. apply in_map_iff. exists e. auto.
+Qed.
+
+Lemma rb_of_nonnil c bk s : count trip_eqb (c, bk) (rb s) <> 0 -> is_nil (rb_of c s) = false.
+Proof.
+  intros H. apply (count_In trip_eqb trip_reflects) in H. unfold rb_of.
+  assert (Hin : In bk (map snd (filter (fun e : N * (N * N) => N.eqb (fst e) c) (rb s)))).
+  { apply in_map_iff. exists (c, bk). split; [reflexivity|]. apply filter_In. split; [exact H|].
+    cbn. apply N.eqb_refl. }
+  destruct (map snd _); [destruct Hin | reflexivity].
+Qed.
+
+(* one decref: explicit effect *)
+Lemma decref_apply_ok s c b k : Inv E s -> count trip_eqb (c, (b, k)) (rb s) <> 0 ->
+  exists s', decref_apply c b k s = (s', Ok tt) /\
+    plan s' = plan s ++ [ODecref c b k] /\ slots s' = slots s /\ pc s' = pc s /\ vf s' = vf s /\
+    fr s' = fr s /\ rb s' = remove1 trip_eqb (c, (b, k)) (rb s) /\
+    brc s' = remove1 N.eqb b (brc s) /\
+    lims s' = (if memN b (remove1 N.eqb b (brc s)) then lims s
+               else filter (fun kb => negb (pair_eqb (k, b) kb)) (lims s)).
+Proof.
+  intros HI Hin.
+  assert (Hb : memN b (brc s) = true).
+  { rewrite memN_count, (I_brc E s HI). pose proof (count_blockers_of _ _ Hin) as H. cbn in H.
+    destruct (count N.eqb b (blockers_of (rb s))); [contradiction | reflexivity]. }
+  assert (Hk : k = bkey E b) by (eapply (I_rbkey E s HI); eauto).
+  unfold decref_apply, bind, plan_append, modify, brc_remove, gets. cbn. rewrite Hb. cbn.
+  destruct (memN b (remove1 N.eqb b (brc s))) eqn:Hb'; cbn.
+  - unfold rb_remove. cbn. unfold rb_of. cbn. fold (rb_of c s).
+    rewrite (rb_of_nonnil c (b, k) s Hin).
+    rewrite (existsb_count trip_eqb). destruct (count trip_eqb (c, (b, k)) (rb s)) eqn:Hc; [contradiction|].
+    cbn. eexists. split; [reflexivity|]. cbn. repeat split; reflexivity.
+  - unfold remove_limiter. cbn.
+    assert (Hl : existsb (pair_eqb (k, b)) (lims s) = true).
+    { rewrite (existsb_count pair_eqb), (I_lims E s HI), Hb, Hk, N.eqb_refl. reflexivity. }
+    rewrite Hl. cbn. unfold rb_remove. cbn. unfold rb_of. cbn. fold (rb_of c s).
+    rewrite (rb_of_nonnil c (b, k) s Hin).
+    rewrite (existsb_count trip_eqb). destruct (count trip_eqb (c, (b, k)) (rb s)) eqn:Hc; [contradiction|].
+    cbn. eexists. split; [reflexivity|]. cbn. repeat split; reflexivity.
+Qed.
+
+Lemma memN_remove1_other b b0 l : N.eqb b b0 = false -> memN b0 (remove1 N.eqb b l) = memN b0 l.
+Proof. intros H. rewrite !memN_count, (count_remove1 N.eqb N_reflects), H. reflexivity. Qed.
+
+Lemma inv_decref_fields s s' c b k : Inv E s -> count trip_eqb (c, (b, k)) (rb s) <> 0 ->
+  slots s' = slots s -> vf s' = vf s -> rb s' = remove1 trip_eqb (c, (b, k)) (rb s) ->
+  brc s' = remove1 N.eqb b (brc s) ->
+  lims s' = (if memN b (remove1 N.eqb b (brc s)) then lims s
+             else filter (fun kb => negb (pair_eqb (k, b) kb)) (lims s)) ->
+  Inv E s'.
+Proof.
+  intros HI Hin Hsl Hvf Hrb Hbrc Hli. pose proof HI as [J1 J2 J3 J4 J5 J6].
+  assert (Hk : k = bkey E b) by (eapply J5; eauto).
+  constructor; intros.
+  - rewrite Hsl. apply J1.
+  - rewrite Hsl in *. apply J2; assumption.
+  - rewrite Hbrc, Hrb, (count_remove1 N.eqb N_reflects). unfold blockers_of.
+    pose proof (count_map_remove1 trip_eqb trip_reflects (fun e => fst (snd e)) (c, (b, k)) b0 (rb s) Hin) as Hm.
+    cbn in Hm. specialize (J3 b0). unfold blockers_of in J3. rewrite (N.eqb_sym b0 b) in Hm.
+    destruct (N.eqb b b0); lia.
+  - rewrite Hli, Hbrc.
+    destruct (N.eqb b b0) eqn:Hbb.
+    + apply N.eqb_eq in Hbb. subst b0.
+      destruct (memN b (remove1 N.eqb b (brc s))) eqn:Hb'.
+      * rewrite J4. assert (Hb : memN b (brc s) = true).
+        { rewrite memN_count, J3. pose proof (count_blockers_of _ _ Hin) as H. cbn in H.
+          destruct (count N.eqb b (blockers_of (rb s))); [contradiction | reflexivity]. }
+        rewrite Hb. reflexivity.
+      * cbn. rewrite (count_filter_ne pair_eqb pair_reflects). unfold pair_eqb at 1. cbn.
+        rewrite N.eqb_refl, andb_true_r. destruct (N.eqb k k0) eqn:Hkk; [reflexivity|].
+        rewrite J4. rewrite <- Hk. rewrite (N.eqb_sym k0 k), Hkk, andb_false_r. reflexivity.
+    + rewrite (memN_remove1_other b b0 _ Hbb).
+      destruct (memN b (remove1 N.eqb b (brc s))); [apply J4|].
+      rewrite (count_filter_ne pair_eqb pair_reflects). unfold pair_eqb at 1. cbn.
+      rewrite Hbb, andb_false_r. apply J4.
+  - rewrite Hrb, (count_remove1 trip_eqb trip_reflects) in H.
+    eapply J5. destruct (trip_eqb (c, (b, k)) (c0, (b0, k0))); [|exact H].
+    intros H0. rewrite H0 in H. cbn in H. contradiction.
+  - rewrite Hvf. apply J6. rewrite <- Hsl. assumption.
+Qed.
+
+(* reverting the decref restores the observables *)
+Lemma decref_revert_ok s s' c b k : Inv E s -> count trip_eqb (c, (b, k)) (rb s) <> 0 ->
+  slots s' = slots s -> pc s' = pc s -> vf s' = vf s -> fr s' = fr s ->
+  rb s' = remove1 trip_eqb (c, (b, k)) (rb s) -> brc s' = remove1 N.eqb b (brc s) ->
+  lims s' = (if memN b (remove1 N.eqb b (brc s)) then lims s
+             else filter (fun kb => negb (pair_eqb (k, b) kb)) (lims s)) ->
+  exists s'', decref_revert E c b k s' = (s'', Ok tt) /\ obs_eq s'' s.
+Proof.
+  intros HI Hin Hsl Hpc Hvf Hfr Hrb Hbrc Hli. pose proof HI as [J1 J2 J3 J4 J5 J6].
+  assert (Hk : k = bkey E b) by (eapply J5; eauto).
+  assert (Hb : memN b (brc s) = true).
+  { rewrite memN_count, J3. pose proof (count_blockers_of _ _ Hin) as H. cbn in H.
+    destruct (count N.eqb b (blockers_of (rb s))); [contradiction | reflexivity]. }
+  assert (Hcb : count N.eqb b (brc s) <> 0) by (apply count_mem; exact Hb).
+  unfold decref_revert, bind, rb_append, modify, gets. cbn. rewrite Hbrc.
+  destruct (memN b (remove1 N.eqb b (brc s))) eqn:Hb'; cbn.
+  - eexists. split; [reflexivity|]. constructor; cbn; intros.
+    + rewrite Hsl. reflexivity.
+    + rewrite Hli. reflexivity.
+    + rewrite Hpc. reflexivity.
+    + rewrite Hrb, (count_app trip_eqb), (count_remove1 trip_eqb trip_reflects). cbn.
+      destruct (trip_eqb (c, (b, k)) e) eqn:He.
+      * apply trip_reflects in He. subst e. rewrite (eqb_refl' trip_eqb trip_reflects). lia.
+      * rewrite (eqb_sym' trip_eqb trip_reflects), He. lia.
+    + rewrite Hbrc, (count_app N.eqb), (count_remove1 N.eqb N_reflects). cbn.
+      destruct (N.eqb b b0) eqn:He.
+      * apply N.eqb_eq in He. subst b0. rewrite N.eqb_refl. lia.
+      * rewrite N.eqb_sym, He. lia.
+    + rewrite Hvf. reflexivity.
+    + rewrite Hfr. reflexivity.
+  - eexists. split; [reflexivity|]. constructor; cbn; intros.
+    + rewrite Hsl. reflexivity.
+    + rewrite Hli. apply (count_filter_last' pair_eqb pair_reflects).
+      rewrite J4, Hb, Hk, N.eqb_refl. reflexivity.
+    + rewrite Hpc. reflexivity.
+    + rewrite Hrb, (count_app trip_eqb), (count_remove1 trip_eqb trip_reflects). cbn.
+      destruct (trip_eqb (c, (b, k)) e) eqn:He.
+      * apply trip_reflects in He. subst e. rewrite (eqb_refl' trip_eqb trip_reflects). lia.
+      * rewrite (eqb_sym' trip_eqb trip_reflects), He. lia.
+    + rewrite Hbrc, (count_app N.eqb), (count_remove1 N.eqb N_reflects). cbn.
+      destruct (N.eqb b b0) eqn:He.
+      * apply N.eqb_eq in He. subst b0. rewrite N.eqb_refl. lia.
+      * rewrite N.eqb_sym, He. lia.
+    + rewrite Hvf. reflexivity.
+    + rewrite Hfr. reflexivity.
+Qed.
+
+Definition dops (c : N) (l : list (N * N)) : list op := map (fun bk => ODecref c (fst bk) (snd bk)) l.
+
+Lemma decref_all_ok c : forall l s, Inv E s ->
+  (forall e, count pair_eqb e l <= count trip_eqb (c, e) (rb s)) ->
+  exists s1, decref_all c l s = (s1, Ok tt) /\ Inv E s1 /\
+    plan s1 = plan s ++ dops c l /\
+    slots s1 = slots s /\ pc s1 = pc s /\ vf s1 = vf s /\ fr s1 = fr s /\
+    (forall t, obs_eq t s1 -> exists t', undo_seq E (rev (dops c l)) t = (t', Ok tt) /\ obs_eq t' s).
+Proof.
+  induction l as [|[b k] r IH]; intros s HI Hc.
+  - exists s. cbn. split; [reflexivity|]. split; [exact HI|]. rewrite app_nil_r.
+    repeat split; try reflexivity. intros t Ht. exists t. split; [reflexivity | exact Ht].
+  - assert (Hin : count trip_eqb (c, (b, k)) (rb s) <> 0).
+    { specialize (Hc (b, k)). cbn in Hc. rewrite (eqb_refl' pair_eqb pair_reflects) in Hc. lia. }
+    destruct (decref_apply_ok s c b k HI Hin) as (s' & Hap & Hpl & Hsl & Hpc & Hvf & Hfr & Hrb & Hbrc & Hli).
+    pose proof (inv_decref_fields s s' c b k HI Hin Hsl Hvf Hrb Hbrc Hli) as HI'.
+    assert (Hc' : forall e, count pair_eqb e r <= count trip_eqb (c, e) (rb s')).
+    { intros e. rewrite Hrb, (count_remove1 trip_eqb trip_reflects). specialize (Hc e). cbn in Hc.
+      unfold trip_eqb at 1. cbn. rewrite N.eqb_refl. cbn.
+      rewrite (eqb_sym' pair_eqb pair_reflects (b, k) e). destruct (pair_eqb e (b, k)); lia. }
+    destruct (IH s' HI' Hc') as (s1 & Hall & HI1 & Hpl1 & Hsl1 & Hpc1 & Hvf1 & Hfr1 & Hundo).
+    exists s1. cbn [decref_all]. unfold bind. rewrite Hap. split; [exact Hall|]. split; [exact HI1|].
+    split; [rewrite Hpl1, Hpl, <- app_assoc; reflexivity|].
+    split; [congruence|]. split; [congruence|]. split; [congruence|]. split; [congruence|].
+    intros t Ht. cbn [dops map rev]. fold (dops c r). rewrite undo_seq_app.
+    destruct (Hundo t Ht) as (t'' & Hu & Ho). rewrite Hu. cbn [undo_seq revert fst snd]. unfold bind.
+    destruct (decref_revert_ok s s' c b k HI Hin Hsl Hpc Hvf Hfr Hrb Hbrc Hli) as (s'' & Hrv & Hos).
+    destruct (decref_revert_rel E c b k t'' s' Ho) as [H1 H2]. rewrite Hrv in H1, H2.
+    destruct (decref_revert E c b k t'') as [t3 [u|e]]; cbn [fst snd Rres] in H1, H2; [|contradiction].
+    exists t3. split; [destruct u; reflexivity|]. eapply obs_trans; eauto.
+Qed.
+
+(* decrefs do not look at the slot table *)
+Lemma decref_apply_slots c b k v s :
+  decref_apply c b k (set_slots v s)
+  = (set_slots v (fst (decref_apply c b k s)), snd (decref_apply c b k s)).
+Proof.
+  unfold decref_apply, bind, plan_append, modify, brc_remove, gets, when, remove_limiter, rb_remove, rb_of, ret.
+  cbn. destruct (memN b (brc s)); cbn; [|reflexivity].
+  destruct (memN b (remove1 N.eqb b (brc s))); cbn.
+  - destruct (is_nil _); cbn; [reflexivity|]. destruct (existsb _ (rb s)); reflexivity.
+  - destruct (existsb (pair_eqb (k, b)) (lims s)); cbn; [|reflexivity].
+    destruct (is_nil _); cbn; [reflexivity|]. destruct (existsb _ (rb s)); reflexivity.
+Qed.
+Lemma decref_all_slots c v : forall l s,
+  decref_all c l (set_slots v s) = (set_slots v (fst (decref_all c l s)), snd (decref_all c l s)).
+Proof.
+  induction l as [|[b k] r IH]; intros s; cbn [decref_all]; [reflexivity|].
+  unfold bind. rewrite decref_apply_slots. destruct (decref_apply c b k s) as [s' [u|e]]; cbn [fst snd].
+  - apply IH.
+  - reflexivity.
+Qed.
+
+Lemma count_rb_of c e s : count pair_eqb e (rb_of c s) = count trip_eqb (c, e) (rb s).
+Proof.
+  unfold rb_of. induction (rb s) as [|[c0 e0] l IH]; cbn; [reflexivity|].
+  unfold trip_eqb at 1. cbn. rewrite (N.eqb_sym c c0). destruct (N.eqb c0 c); cbn; [rewrite IH; reflexivity | exact IH].
+Qed.
+
+Lemma rb_of_set_slots c v s : rb_of c (set_slots v s) = rb_of c s.
+Proof. reflexivity. Qed.
+
+Lemma bind_ok {A B} (m : M A) (f : A -> M B) s s' a : m s = (s', Ok a) -> bind m f s = f a s'.
+Proof. intros H. unfold bind. rewrite H. reflexivity. Qed.
+
+(* ---- remove_op *)
+Lemma undo_remove s c p : Inv E s -> wf_api_b E s (ARemove c p) = true -> Undoable E s (ARemove c p).
+Proof.
+  intros HI H. cbn [wf_api_b] in H. apply andb_true_iff in H. destruct H as [Hsl Hpc].
+  unfold opt_eqb in Hpc. destruct (lookup p (pc s)) as [c0|] eqn:Hlk; [|discriminate].
+  apply N.eqb_eq in Hpc. subst c0.
+  assert (Hc1 : count N.eqb p (slots s) = 1).
+  { pose proof (I_nodup E s HI p). pose proof (count_mem _ _ Hsl). lia. }
+  assert (Hvf : memN p (vf s) = false) by (apply (I_vf E s HI); rewrite Hc1; lia).
+  set (v := filter (fun x => negb (N.eqb x p)) (slots s)).
+  assert (Hl : forall e, count pair_eqb e (rb_of c s) <= count trip_eqb (c, e) (rb s))
+    by (intros e; rewrite count_rb_of; lia).
+  destruct (decref_all_ok c (rb_of c s) s HI Hl) as (sb & Hall & HIb & Hplb & Hslb & Hpcb & Hvfb & Hfrb & Hundo).
+  set (X0 := set_vf (vf s ++ [p])
+               (set_plan (plan sb ++ [ORemove c p])
+                  (set_pc (filter (fun qc : N * N => negb (N.eqb (fst qc) p)) (pc s)) (set_slots v sb)))).
+  assert (Hr : exists T1, (fill_slotting E p true;;; pc_set p c;;; vf_remove p) X0 = (T1, Ok tt) /\
+               obs_eq T1 sb).
+  { eexists. split.
+    - unfold bind, fill_slotting. cbn. rewrite orb_true_r. cbn. unfold vf_remove. cbn.
+      rewrite memN_refl_app. reflexivity.
+    - constructor; cbn; intros; try reflexivity.
+      + rewrite (count_app N.eqb). unfold v. rewrite (count_filter N.eqb N_reflects), Hslb. cbn.
+        destruct (N.eqb p0 p) eqn:Hpp; cbn; [apply N.eqb_eq in Hpp; subst; lia | lia].
+      + rewrite Hpcb. destruct (N.eqb p0 p) eqn:Hpp; cbn.
+        * apply N.eqb_eq in Hpp. subst. symmetry. exact Hlk.
+        * rewrite !lookup_filter_ne, Hpp. reflexivity.
+      + rewrite memN_filter_ne, memN_app, Hvfb. destruct (N.eqb p0 p) eqn:Hpp; cbn.
+        * apply N.eqb_eq in Hpp. subst. rewrite andb_false_r. symmetry. exact Hvf.
+        * rewrite orb_false_r, andb_true_r. reflexivity. }
+  destruct Hr as (T1 & Hr & HoT).
+  destruct (Hundo T1 HoT) as (t' & Hu & Ho).
+  exists X0, None, (dops c (rb_of c s) ++ [ORemove c p]). split; [|split].
+  - cbn [call]. unfold remove_apply, bind, remove_slotting. rewrite Hsl.
+    unfold remove_pkg_blockers. rewrite rb_of_set_slots, decref_all_slots, Hall. cbn [fst snd]. fold v.
+    unfold pc_del. cbn [pc set_slots]. rewrite Hpcb, Hlk. cbn.
+    rewrite Hvfb, Hvf. cbn. reflexivity.
+  - cbn. rewrite Hplb, <- app_assoc. reflexivity.
+  - eapply undo_seg with (seg := dops c (rb_of c s) ++ [ORemove c p]) (s2 := t').
+    + cbn. rewrite Hplb, <- app_assoc. reflexivity.
+    + rewrite rev_app_distr. cbn [rev app undo_seq revert].
+      rewrite (bind_ok _ _ _ _ _ Hr). exact Hu.
+    + exact Ho.
+Qed.
+
+Lemma call_remove_state s c p : Inv E s -> wf_api_b E s (ARemove c p) = true ->
+  exists sb, Inv E sb /\ slots sb = slots s /\ vf sb = vf s /\
+    call_s E (ARemove c p) s
+    = set_vf (vf s ++ [p]) (set_plan (plan sb ++ [ORemove c p])
+        (set_pc (filter (fun qc : N * N => negb (N.eqb (fst qc) p)) (pc s))
+           (set_slots (filter (fun x => negb (N.eqb x p)) (slots s)) sb))).
+Proof.
+  intros HI H. cbn [wf_api_b] in H. apply andb_true_iff in H. destruct H as [Hsl Hpc].
+  unfold opt_eqb in Hpc. destruct (lookup p (pc s)) as [c0|] eqn:Hlk; [|discriminate].
+  apply N.eqb_eq in Hpc. subst c0.
+  assert (Hc1 : count N.eqb p (slots s) = 1).
+  { pose proof (I_nodup E s HI p). pose proof (count_mem _ _ Hsl). lia. }
+  assert (Hvf : memN p (vf s) = false) by (apply (I_vf E s HI); rewrite Hc1; lia).
+  assert (Hl : forall e, count pair_eqb e (rb_of c s) <= count trip_eqb (c, e) (rb s))
+    by (intros e; rewrite count_rb_of; lia).
+  destruct (decref_all_ok c (rb_of c s) s HI Hl) as (sb & Hall & HIb & Hplb & Hslb & Hpcb & Hvfb & Hfrb & Hundo).
+  exists sb. split; [exact HIb|]. split; [exact Hslb|]. split; [exact Hvfb|].
+  unfold call_s. cbn [call]. unfold remove_apply, bind, remove_slotting. rewrite Hsl.
+  unfold remove_pkg_blockers. rewrite rb_of_set_slots, decref_all_slots, Hall. cbn [fst snd].
+  unfold pc_del. cbn [pc set_slots]. rewrite Hpcb, Hlk. cbn.
+  rewrite Hvfb, Hvf. cbn. reflexivity.
+Qed.
+
+Lemma inv_remove s c p : Inv E s -> wf_api_b E s (ARemove c p) = true -> Inv E (call_s E (ARemove c p) s).
+Proof.
+  intros HI H. destruct (call_remove_state s c p HI H) as (sb & HIb & Hslb & Hvfb & ->).
+  destruct HIb as [J1 J2 J3 J4 J5 J6]. rewrite Hslb in *. rewrite Hvfb in *.
+  constructor; cbn; intros; auto.
+  - rewrite (count_filter N.eqb N_reflects). specialize (J1 p0). destruct (negb (N.eqb p0 p)); lia.
+  - rewrite !(count_filter N.eqb N_reflects) in *.
+    destruct (negb (N.eqb p0 p)), (negb (N.eqb q p)); try contradiction. apply J2; assumption.
+  - eapply J5; eauto.
+  - rewrite (count_filter N.eqb N_reflects) in *. rewrite memN_app.
+    destruct (N.eqb p0 p) eqn:Hpp; cbn in *; [contradiction|]. rewrite orb_false_r. apply J6. assumption.
+Qed.
+
+(* ---- a bare decref *)
+Lemma undo_decref s c b k : Inv E s -> wf_api_b E s (ADecref c b k) = true -> Undoable E s (ADecref c b k).
+Proof.
+  intros HI H. cbn [wf_api_b] in H. apply andb_true_iff in H. destruct H as [_ Hex].
+  assert (Hin : count trip_eqb (c, (b, k)) (rb s) <> 0).
+  { rewrite (existsb_count trip_eqb) in Hex. destruct (count trip_eqb (c, (b, k)) (rb s)); [discriminate | lia]. }
+  destruct (decref_apply_ok s c b k HI Hin) as (s' & Hap & Hpl & Hsl & Hpc & Hvf & Hfr & Hrb & Hbrc & Hli).
+  destruct (decref_revert_ok s s' c b k HI Hin Hsl Hpc Hvf Hfr Hrb Hbrc Hli) as (s'' & Hrv & Hos).
+  exists s', None, [ODecref c b k]. split; [|split; [exact Hpl|]].
+  - cbn [call]. rewrite (bind_ok _ _ _ _ _ Hap). reflexivity.
+  - eapply undo_seg with (seg := [ODecref c b k]) (s2 := s''); [exact Hpl | | exact Hos].
+    cbn [rev app undo_seq revert]. rewrite (bind_ok _ _ _ _ _ Hrv). reflexivity.
+Qed.
+Lemma inv_decref s c b k : Inv E s -> wf_api_b E s (ADecref c b k) = true -> Inv E (call_s E (ADecref c b k) s).
+Proof.
+  intros HI H. cbn [wf_api_b] in H. apply andb_true_iff in H. destruct H as [_ Hex].
+  assert (Hin : count trip_eqb (c, (b, k)) (rb s) <> 0).
+  { rewrite (existsb_count trip_eqb) in Hex. destruct (count trip_eqb (c, (b, k)) (rb s)); [discriminate | lia]. }
+  destruct (decref_apply_ok s c b k HI Hin) as (s' & Hap & Hpl & Hsl & Hpc & Hvf & Hfr & Hrb & Hbrc & Hli).
+  unfold call_s. cbn [call]. rewrite (bind_ok _ _ _ _ _ Hap). cbn.
+  eapply inv_decref_fields; eauto.
+Qed.
+
+(* which limiters the nested decrefs may drop *)
+Lemma filter_filter {A} (f g : A -> bool) l : filter g (filter f l) = filter (fun x => f x && g x) l.
+Proof. induction l as [|x l IH]; cbn; [reflexivity|]. destruct (f x); cbn; [destruct (g x); congruence | exact IH]. Qed.
+Lemma filter_true {A} (l : list A) : filter (fun _ => true) l = l.
+Proof. induction l; cbn; congruence. Qed.
+
+Lemma decref_all_lims c : forall l s, Inv E s ->
+  (forall e, count pair_eqb e l <= count trip_eqb (c, e) (rb s)) ->
+  exists h, lims (fst (decref_all c l s)) = filter h (lims s) /\
+            forall kb, h kb = false -> In (snd kb, fst kb) l.
+Proof.
+  induction l as [|[b k] r IH]; intros s HI Hc.
+  - exists (fun _ => true). cbn. rewrite filter_true. split; [reflexivity | discriminate].
+  - assert (Hin : count trip_eqb (c, (b, k)) (rb s) <> 0).
+    { specialize (Hc (b, k)). cbn in Hc. rewrite (eqb_refl' pair_eqb pair_reflects) in Hc. lia. }
+    destruct (decref_apply_ok s c b k HI Hin) as (s' & Hap & Hpl & Hsl & Hpc & Hvf & Hfr & Hrb & Hbrc & Hli).
+    pose proof (inv_decref_fields s s' c b k HI Hin Hsl Hvf Hrb Hbrc Hli) as HI'.
+    assert (Hc' : forall e, count pair_eqb e r <= count trip_eqb (c, e) (rb s')).
+    { intros e. rewrite Hrb, (count_remove1 trip_eqb trip_reflects). specialize (Hc e). cbn in Hc.
+      unfold trip_eqb at 1. cbn. rewrite N.eqb_refl. cbn.
+      rewrite (eqb_sym' pair_eqb pair_reflects (b, k) e). destruct (pair_eqb e (b, k)); lia. }
+    destruct (IH s' HI' Hc') as (h & Hh & Hhf).
+    cbn [decref_all]. unfold bind. rewrite Hap. rewrite Hh, Hli.
+    destruct (memN b (remove1 N.eqb b (brc s))).
+    + exists h. split; [reflexivity|]. intros kb Hkb. right. apply Hhf. exact Hkb.
+    + exists (fun kb => negb (pair_eqb (k, b) kb) && h kb). split; [apply filter_filter|].
+      intros [k0 b0] Hkb. apply andb_false_iff in Hkb. destruct Hkb as [Hkb|Hkb].
+      * apply negb_false_iff in Hkb. apply pair_reflects in Hkb. injection Hkb as <- <-. left. reflexivity.
+      * right. apply Hhf. exact Hkb.
+Qed.
+
+Lemma filter_sub_nil {A} (g h : A -> bool) l : filter g l = [] -> filter g (filter h l) = [].
+Proof.
+  induction l as [|x l IH]; cbn; [reflexivity|]. destruct (g x) eqn:Hg; [discriminate|].
+  intros H. destruct (h x); cbn; [rewrite Hg|]; apply IH; exact H.
+Qed.
+Lemma filter_same {A} (g h : A -> bool) l :
+  (forall x, In x l -> h x = false -> g x = false) -> filter g (filter h l) = filter g l.
+Proof.
+  induction l as [|x l IH]; cbn; [reflexivity|]. intros H.
+  destruct (h x) eqn:Hh; cbn.
+  - destruct (g x); [f_equal|]; apply IH; intros; apply H; auto.
+  - rewrite (H x (or_introl eq_refl) Hh). apply IH. intros; apply H; auto.
+Qed.
+
+(* ---- replace_op *)
+Lemma find_some_in {A} (f : A -> bool) l x : find f l = Some x -> In x l /\ f x = true.
+Proof. apply find_some. Qed.
+
+Record ReplaceFacts (s : state) (c p : N) (old oc : N) (sb : state) : Prop := {
+  rf_old_in : count N.eqb old (slots s) = 1;
+  rf_same : same_slot E p old = true;
+  rf_p_out : count N.eqb p (slots s) = 0;
+  rf_p_unbound : lookup p (pc s) = None;
+  rf_p_vf : memN p (vf s) = false;
+  rf_old_vf : memN old (vf s) = false;
+  rf_oc : lookup old (pc s) = Some oc;
+  rf_ne : N.eqb p old = false;
+  rf_inv : Inv E sb;
+  rf_plan : plan sb = plan s ++ dops oc (rb_of oc s);
+  rf_slots : slots sb = slots s; rf_pc : pc sb = pc s; rf_vf : vf sb = vf s; rf_fr : fr sb = fr s;
+  rf_all : decref_all oc (rb_of oc s) s = (sb, Ok tt);
+  rf_undo : forall t, obs_eq t sb -> exists t', undo_seq E (rev (dops oc (rb_of oc s))) t = (t', Ok tt) /\ obs_eq t' s;
+  rf_lim_p : check_limiters E p sb = [];
+  rf_lim_old : check_limiters E old sb = check_limiters E old s;
+  rf_others : forall x, count N.eqb x (slots s) <> 0 -> N.eqb x old = false -> same_slot E p x = false;
+  rf_others_old : forall x, count N.eqb x (slots s) <> 0 -> N.eqb x old = false -> same_slot E old x = false }.
+
+Lemma replace_facts s c p : Inv E s -> wf_api_b E s (AReplace c p false) = true ->
+  exists old oc sb, get_conflicting_slot E p s = Some old /\ ReplaceFacts s c p old oc sb.
+Proof.
+  intros HI H. cbn [wf_api_b negb andb] in H.
+  apply andb_true_iff in H. destruct H as [H Hm].
+  apply andb_true_iff in H. destruct H as [H Hlim].
+  apply andb_true_iff in H. destruct H as [H Hvf].
+  apply andb_true_iff in H. destruct H as [Hb Hsl].
+  apply negb_true_iff in Hsl. apply negb_true_iff in Hvf. apply negb_true_iff in Hb.
+  unfold bound in Hb. destruct (lookup p (pc s)) eqn:Hlk; [discriminate|].
+  destruct (get_conflicting_slot E p s) as [old|] eqn:Hold; [|discriminate].
+  destruct (lookup old (pc s)) as [oc|] eqn:Hoc; [|discriminate].
+  unfold get_conflicting_slot in Hold. apply find_some_in in Hold. destruct Hold as [Hin Hsame].
+  assert (Hcold : count N.eqb old (slots s) = 1).
+  { pose proof (I_nodup E s HI old). apply (count_In N.eqb N_reflects) in Hin. lia. }
+  assert (Hne : N.eqb p old = false).
+  { destruct (N.eqb p old) eqn:Hpo; [|reflexivity]. apply N.eqb_eq in Hpo. subst old.
+    rewrite (count_notmem _ _ Hsl) in Hcold. discriminate. }
+  assert (Hl : forall e, count pair_eqb e (rb_of oc s) <= count trip_eqb (oc, e) (rb s))
+    by (intros e; rewrite count_rb_of; lia).
+  destruct (decref_all_ok oc (rb_of oc s) s HI Hl) as (sb & Hall & HIb & Hplb & Hslb & Hpcb & Hvfb & Hfrb & Hundo).
+  destruct (decref_all_lims oc (rb_of oc s) s HI Hl) as (h & Hh & Hhf). rewrite Hall in Hh. cbn in Hh.
+  exists old, oc, sb. split; [reflexivity|].
+  assert (Hothers_old : forall x, count N.eqb x (slots s) <> 0 -> N.eqb x old = false -> same_slot E old x = false).
+  { intros x Hx Hxo. destruct (same_slot E old x) eqn:Hs; [|reflexivity].
+    assert (old = x) by (apply (I_slot E s HI); [lia | exact Hx | exact Hs]).
+    subst x. rewrite N.eqb_refl in Hxo. discriminate. }
+  constructor; auto.
+  - apply count_notmem. exact Hsl.
+  - apply (I_vf E s HI). lia.
+  - unfold check_limiters. rewrite Hh. apply is_nil_eq in Hlim. unfold check_limiters in Hlim.
+    apply map_eq_nil in Hlim. rewrite filter_sub_nil; [reflexivity | exact Hlim].
+  - unfold check_limiters. rewrite Hh. f_equal. apply filter_same.
+    intros [k0 b0] _ Hk0. apply Hhf in Hk0. cbn in Hk0. cbn.
+    rewrite forallb_forall in Hm. specialize (Hm _ Hk0). cbn in Hm. apply negb_true_iff in Hm.
+    rewrite Hm, andb_false_r. reflexivity.
+  - intros x Hx Hxo. destruct (same_slot E p x) eqn:Hs; [|reflexivity].
+    rewrite <- (Hothers_old x Hx Hxo). unfold same_slot in *.
+    apply andb_true_iff in Hs. destruct Hs as [H1 H2]. apply andb_true_iff in Hsame. destruct Hsame as [H3 H4].
+    apply N.eqb_eq in H1, H2, H3, H4. rewrite H1, H2, H3, H4, !N.eqb_refl. reflexivity.
+Qed.
+
+Lemma filter_all_false {A} (f : A -> bool) l : (forall x, In x l -> f x = false) -> filter f l = [].
+Proof.
+  induction l as [|x l IH]; cbn; [reflexivity|]. intros H. rewrite (H x (or_introl eq_refl)).
+  apply IH. intros; apply H; auto.
+Qed.
+Lemma check_limiters_set_slots q v s : check_limiters E q (set_slots v s) = check_limiters E q s.
+Proof. reflexivity. Qed.
+Lemma In_filter_ne x old l : In x (filter (fun z => negb (N.eqb z old)) l) -> In x l /\ N.eqb x old = false.
+Proof. intros H. apply filter_In in H. destruct H as [H1 H2]. apply negb_true_iff in H2. auto. Qed.
+
+Definition replace_result (s : state) (c p old oc : N) (sb : state) : state :=
+  set_vf (vf s ++ [old])
+    (set_plan (plan sb ++ [OReplace c p false old oc (negb (is_nil (check_limiters E old s)))])
+       (set_pc ((p, c) :: filter (fun qc : N * N => negb (N.eqb (fst qc) p))
+                            (filter (fun qc : N * N => negb (N.eqb (fst qc) old)) (pc s)))
+          (set_slots (filter (fun z => negb (N.eqb z old)) (slots s) ++ [p]) sb))).
+
+Lemma call_replace s c p old oc sb :
+  get_conflicting_slot E p s = Some old -> ReplaceFacts s c p old oc sb ->
+  call E (AReplace c p false) s = (replace_result s c p old oc sb, Ok None).
+Proof.
+  intros Hold F. destruct F.
+  assert (Hmem : memN old (slots s) = true).
+  { rewrite memN_count, rf_old_in0. reflexivity. }
+  cbn [call]. unfold replace_apply, bind, gets. rewrite Hold. cbn [fst snd].
+  unfold remove_slotting. rewrite Hmem. cbn [pc set_slots]. rewrite rf_oc0.
+  unfold remove_pkg_blockers. rewrite rb_of_set_slots, decref_all_slots, rf_all0. cbn [fst snd].
+  unfold fill_slotting. rewrite check_limiters_set_slots, rf_lim_p0.
+  assert (Hsc : slot_conflicts E p (set_slots (filter (fun x => negb (N.eqb x old)) (slots s)) sb) = []).
+  { unfold slot_conflicts. cbn [slots set_slots]. apply filter_all_false. intros x Hx.
+    apply In_filter_ne in Hx. destruct Hx as [Hx1 Hx2]. apply rf_others0; [|exact Hx2].
+    apply (count_In N.eqb N_reflects). exact Hx1. }
+  rewrite Hsc. cbn [map app is_nil negb orb]. cbn iota.
+  unfold pc_del. cbn [pc set_slots]. rewrite rf_pc0, rf_oc0. cbn.
+  rewrite rf_vf0, rf_old_vf0. cbn. unfold replace_result. reflexivity.
+Qed.
+
+Lemma undo_replace s c p f : Inv E s -> wf_api_b E s (AReplace c p f) = true -> Undoable E s (AReplace c p f).
+Proof.
+  intros HI H. assert (f = false) by (destruct f; [discriminate | reflexivity]). subst f.
+  destruct (replace_facts s c p HI H) as (old & oc & sb & Hold & F).
+  pose proof (call_replace s c p old oc sb Hold F) as Hcall. destruct F.
+  set (fo := negb (is_nil (check_limiters E old s))) in *.
+  set (v := filter (fun z => negb (N.eqb z old)) (slots s)).
+  assert (Hr : exists T1, revert E (OReplace c p false old oc fo) (replace_result s c p old oc sb) = (T1, Ok tt)
+               /\ obs_eq T1 sb).
+  { cbn [revert]. unfold bind, remove_slotting, replace_result. cbn [slots set_vf set_plan set_pc set_slots].
+    rewrite memN_refl_app. unfold fill_slotting.
+    match goal with |- context [slot_conflicts E old ?X] =>
+      assert (Hsc : slot_conflicts E old X = []) end.
+    { unfold slot_conflicts. cbn [slots set_slots]. apply filter_all_false. intros x Hx.
+      apply filter_In in Hx. destruct Hx as [Hx Hxp]. apply negb_true_iff in Hxp.
+      apply in_app_or in Hx. destruct Hx as [Hx|[Hx|[]]].
+      - apply In_filter_ne in Hx. destruct Hx as [Hx1 Hx2]. apply rf_others_old0; [|exact Hx2].
+        apply (count_In N.eqb N_reflects). exact Hx1.
+      - subst x. rewrite N.eqb_refl in Hxp. discriminate. }
+    rewrite Hsc.
+    match goal with |- context [check_limiters E old ?X] =>
+      change (check_limiters E old X) with (check_limiters E old sb) end.
+    rewrite rf_lim_old0. rewrite app_nil_r, is_nil_map.
+    fold fo. assert (Hfo : is_nil (check_limiters E old s) = negb fo) by (unfold fo; rewrite negb_involutive; reflexivity).
+    rewrite Hfo. replace (negb fo || fo) with true by (destruct fo; reflexivity).
+    rewrite eqb_reflx.
+    unfold pc_del. cbn. rewrite N.eqb_refl. cbn. unfold vf_remove. cbn. rewrite memN_refl_app.
+    eexists. split; [reflexivity|].
+    constructor; cbn; intros; try reflexivity.
+    - rewrite (count_app N.eqb), (count_filter N.eqb N_reflects), (count_app N.eqb). fold v. cbn.
+      unfold v. rewrite (count_filter N.eqb N_reflects), rf_slots0.
+      destruct (N.eqb p0 p) eqn:Hpp; cbn.
+      + apply N.eqb_eq in Hpp. subst p0. rewrite rf_ne0, rf_p_out0. reflexivity.
+      + destruct (N.eqb p0 old) eqn:Hpo; cbn; [apply N.eqb_eq in Hpo; subst; lia | lia].
+    - rewrite rf_pc0. destruct (N.eqb p0 old) eqn:Hpo; cbn.
+      + apply N.eqb_eq in Hpo. subst. symmetry. exact rf_oc0.
+      + rewrite !lookup_filter_ne, Hpo. cbn. destruct (N.eqb p0 p) eqn:Hpp.
+        * apply N.eqb_eq in Hpp. subst. cbn. symmetry. exact rf_p_unbound0.
+        * reflexivity.
+    - rewrite memN_filter_ne, memN_app, rf_vf0. destruct (N.eqb p0 old) eqn:Hpo; cbn.
+      + apply N.eqb_eq in Hpo. subst. rewrite andb_false_r. symmetry. exact rf_old_vf0.
+      + rewrite orb_false_r, andb_true_r. reflexivity. }
+  destruct Hr as (T1 & Hr & HoT).
+  destruct (rf_undo0 T1 HoT) as (t' & Hu & Ho).
+  exists (replace_result s c p old oc sb), None, (dops oc (rb_of oc s) ++ [OReplace c p false old oc fo]).
+  split; [exact Hcall|]. split.
+  - unfold replace_result. cbn. rewrite rf_plan0, <- app_assoc. reflexivity.
+  - eapply undo_seg with (seg := dops oc (rb_of oc s) ++ [OReplace c p false old oc fo]) (s2 := t').
+    + unfold replace_result. cbn. rewrite rf_plan0, <- app_assoc. reflexivity.
+    + rewrite rev_app_distr. cbn [rev app undo_seq]. rewrite (bind_ok _ _ _ _ _ Hr). exact Hu.
+    + exact Ho.
+Qed.
+
+Lemma inv_replace s c p f : Inv E s -> wf_api_b E s (AReplace c p f) = true -> Inv E (call_s E (AReplace c p f) s).
+Proof.
+  intros HI H. assert (f = false) by (destruct f; [discriminate | reflexivity]). subst f.
+  destruct (replace_facts s c p HI H) as (old & oc & sb & Hold & F).
+  unfold call_s. rewrite (call_replace s c p old oc sb Hold F). cbn [fst]. destruct F.
+  destruct rf_inv0 as [J1 J2 J3 J4 J5 J6]. rewrite rf_slots0 in *. rewrite rf_vf0 in *.
+  unfold replace_result. constructor; cbn; intros; auto.
+  - rewrite (count_app N.eqb), (count_filter N.eqb N_reflects). cbn.
+    destruct (N.eqb p0 p) eqn:Hpp.
+    + apply N.eqb_eq in Hpp. subst p0. rewrite rf_p_out0. destruct (negb (N.eqb p old)); lia.
+    + specialize (J1 p0). destruct (negb (N.eqb p0 old)); lia.
+  - rewrite !(count_app N.eqb), !(count_filter N.eqb N_reflects) in *. cbn in *.
+    destruct (N.eqb p0 p) eqn:Hp0, (N.eqb q p) eqn:Hq0.
+    + apply N.eqb_eq in Hp0, Hq0. congruence.
+    + apply N.eqb_eq in Hp0. subst p0. destruct (N.eqb q old) eqn:Hqo; cbn in *; [lia|].
+      rewrite rf_others0 in H2; [discriminate | lia | exact Hqo].
+    + apply N.eqb_eq in Hq0. subst q. destruct (N.eqb p0 old) eqn:Hpo; cbn in *; [lia|].
+      rewrite same_slot_sym, rf_others0 in H2; [discriminate | lia | exact Hpo].
+    + destruct (N.eqb p0 old), (N.eqb q old); cbn in *; try lia. apply J2; auto; lia.
+  - eapply J5; eauto.
+  - rewrite (count_app N.eqb), (count_filter N.eqb N_reflects) in *. cbn in *. rewrite memN_app.
+    destruct (N.eqb p0 p) eqn:Hpp.
+    + apply N.eqb_eq in Hpp. subst p0. rewrite rf_p_vf0, rf_ne0. reflexivity.
+    + destruct (N.eqb p0 old) eqn:Hpo; cbn in *; [lia|]. rewrite orb_false_r. apply J6. lia.
+Qed.
+
+End Compound.
+
+(* ------------------------------------------------------------------ the property theorems *)
 (* full statements *)
 Definition revert_inverts_apply_statement : Prop :=
   forall E s a, Inv E s -> wf_api_b E s a = true -> Undoable E s a.
@@ -1245,56 +1783,73 @@ Definition rollback_restores_earlier_statement : Prop :=
   forall E h1 h2 k, WF E (h1 ++ h2) -> k = length (plan (run E h1 init)) ->
     (forall k', In (R k') h2 -> k <= k') ->
     exists s', backtrack E k (run E (h1 ++ h2) init) = (s', Ok tt) /\ equiv s' (run E h1 init).
+(* the "replay from the empty state" form; proved below when the surviving prefix contains no
+   rollback of its own (backtrack_is_replay_partial_proof); in general it needs, in addition,
+   that API calls respect ≈w (not proved) *)
 Definition backtrack_is_replay_statement : Prop :=
   forall E h, WF E h -> equivw (run E h init) (replay E (surviving E h) init).
 
-Lemma revert_inverts_apply_partial_proof : forall E s a,
-  simple a = true -> Inv E s -> wf_api_b E s a = true -> Undoable E s a.
+Lemma revert_inverts_apply_proof : revert_inverts_apply_statement.
 Proof.
-  intros E s a Hs HI Hwf. destruct a; try discriminate.
+  intros E s a HI Hwf. destruct a.
   - apply undo_add; assumption.
   - apply undo_hardref.
   - apply undo_backref.
+  - apply undo_remove; assumption.
+  - apply undo_replace; assumption.
   - apply undo_block; assumption.
+  - apply undo_decref; assumption.
 Qed.
 
-Lemma inv_simple E s a : simple a = true -> Inv E s -> wf_api_b E s a = true -> Inv E (call_s E a s).
+Lemma inv_call E s a : Inv E s -> wf_api_b E s a = true -> Inv E (call_s E a s).
 Proof.
-  intros Hs HI Hwf. destruct a; try discriminate.
+  intros HI Hwf. destruct a.
   - apply inv_add; assumption.
   - apply inv_hardref; assumption.
   - apply inv_backref; assumption.
+  - apply inv_remove; assumption.
+  - apply inv_replace; assumption.
   - apply inv_block; assumption.
+  - apply inv_decref; assumption.
 Qed.
 
-(* the reduction: for ANY state invariant G and set of calls ok such that every well-formed ok call
-   keeps G and is undoable on its own, rollback restores the exact earlier state in every
-   well-formed history of ok calls with arbitrarily interleaved rollbacks *)
-Lemma rollback_restores_earlier_reduction_proof :
-  forall E (G : state -> Prop) (ok : api -> bool),
-  (forall s1 s2, obs_eq s1 s2 -> G s1 -> G s2) ->
-  (forall s a, ok a = true -> G s -> wf_api_b E s a = true -> G (call_s E a s)) ->
-  (forall s a, ok a = true -> G s -> wf_api_b E s a = true -> Undoable E s a) ->
-  G init ->
-  forall h1 h2 k, WF E (h1 ++ h2) -> forallb (okE ok) (h1 ++ h2) = true ->
-    k = length (plan (run E h1 init)) -> (forall k', In (R k') h2 -> k <= k') ->
-    exists s', backtrack E k (run E (h1 ++ h2) init) = (s', Ok tt) /\ equiv s' (run E h1 init).
+Lemma rollback_restores_earlier_proof : rollback_restores_earlier_statement.
 Proof.
-  intros E G ok H1 H2 H3 H4 h1 h2 k Hwf Hok Hk Hge.
-  eapply (rollback_restores_earlier_G E G ok H1 H2 H3 H4); eauto.
-  unfold WF'. rewrite wf_from'_iff. unfold WF in Hwf. rewrite Hwf, Hok. reflexivity.
-Qed.
-
-Lemma rollback_restores_earlier_partial_proof :
-  forall E h1 h2 k, WF E (h1 ++ h2) -> forallb (okE simple) (h1 ++ h2) = true ->
-    k = length (plan (run E h1 init)) -> (forall k', In (R k') h2 -> k <= k') ->
-    exists s', backtrack E k (run E (h1 ++ h2) init) = (s', Ok tt) /\ equiv s' (run E h1 init).
-Proof.
-  intros E. apply (rollback_restores_earlier_reduction_proof E (Inv E) simple).
+  intros E h1 h2 k Hwf Hk Hge.
+  eapply (rollback_restores_earlier_G E (Inv E) (fun _ => true)); eauto.
   - apply Inv_obs.
-  - intros. apply inv_simple; assumption.
-  - intros. apply revert_inverts_apply_partial_proof; assumption.
+  - intros. apply inv_call; assumption.
+  - intros. apply revert_inverts_apply_proof; assumption.
   - apply Inv_init.
+  - unfold WF'. rewrite wf_from'_iff. unfold WF in Hwf. rewrite Hwf. cbn.
+    apply forallb_forall. intros [a|k0] _; reflexivity.
+Qed.
+
+(* the invariant holds in every state a well-formed history reaches *)
+Lemma inv_reachable_proof : forall E h, WF E h -> Inv E (run E h init).
+Proof.
+  intros E h Hwf.
+  assert (Hwf' : wf_from' E (fun _ => true) h (init, []) = true).
+  { rewrite wf_from'_iff. unfold WF in Hwf. rewrite Hwf. cbn.
+    apply forallb_forall. intros [a|k0] _; reflexivity. }
+  pose proof (good_run E (Inv E) (fun _ => true) (Inv_obs E)
+                (fun s a _ HI Hw => inv_call E s a HI Hw)
+                (fun s a _ HI Hw => revert_inverts_apply_proof E s a HI Hw)
+                h _ _ (good_init E (Inv E) (Inv_init E)) Hwf') as (Hs & _ & HI & _).
+  rewrite Hs, trun_state in HI. exact HI.
+Qed.
+
+(* replay form, one level: the calls l that remain, then anything that stays above them, then the
+   rollback to their end: the state is the replay of l from the empty state *)
+Lemma run_calls E l s : run E (map C l) s = replay E l s.
+Proof. revert s. induction l as [|a l IH]; intros s; cbn; [reflexivity | apply IH]. Qed.
+Lemma backtrack_is_replay_partial_proof : forall E l h2 k,
+  WF E (map C l ++ h2) -> k = length (plan (replay E l init)) ->
+  (forall k', In (R k') h2 -> k <= k') ->
+  exists s', backtrack E k (run E (map C l ++ h2) init) = (s', Ok tt) /\ equiv s' (replay E l init).
+Proof.
+  intros E l h2 k Hwf Hk Hge. rewrite <- run_calls in *.
+  apply rollback_restores_earlier_proof; assumption.
 Qed.
 
 (* rollback respects ≈ (all operations, failing reverts included) and composes *)
@@ -1310,13 +1865,13 @@ Proof. intros. eapply backtrack_compose; eauto. Qed.
 (* ------------------------------------------------------------------ examples and refutations *)
 Definition E0 : env := env_of {| ckeys := [0;0;0;1]%N; cslots := [0;0;1;0]%N; cbkeys := [0;1]%N;
                                  cmatch := [[false;true;false;false];[false;false;false;true]] |}.
-(* the hypotheses of the partial theorem are satisfiable by a history with conflicts, blockers
-   shared by two choice points, and nested rollbacks *)
+(* the hypotheses are satisfiable by a history with conflicts, blockers shared by two choice
+   points, and nested rollbacks *)
 Definition h_ex : list event :=
   [C (AHardref 0); C (AAdd 0 0 false); C (ABlock 0 0 0); C (AAdd 1 1 false); C (ABlock 1 0 0);
    C (AAdd 2 3 true); C (ABlock 2 1 1); R 5; C (ABlock 1 1 1); R 3; R 1]%N.
-Example wf_ex : WF E0 h_ex /\ forallb (okE simple) h_ex = true.
-Proof. split; vm_compute; reflexivity. Qed.
+Example wf_ex : WF E0 h_ex.
+Proof. vm_compute. reflexivity. Qed.
 (* a well-formed history with the compound operations (replace with nested decrefs, remove) *)
 Definition h_ex2 : list event :=
   [C (AAdd 0 0 true); C (ABlock 0 1 1); C (ABlock 0 1 1); C (AReplace 1 1 false); R 3;
